@@ -270,6 +270,8 @@ def parseCOp (t : String) : Option COp :=
   match words t with
   | ["exit", n] => n.toNat?.map .exit
   | ["setlim", n] => n.toNat?.map .setlim
+  | ["badlim", n] => n.toNat?.map .badlim
+  | ["wself"] => some .waitself
   | _ =>
     match parseOp t with
     | some op => some (.file op)
@@ -294,6 +296,8 @@ def showCObs : COp → CObs → String
   | .file op, .file o => showObs op o
   | _, .sig o => SigDrv.showSObs o
   | _, .ok => "ok"
+  | _, .einval => "EINVAL"
+  | _, .echild => "ECHILD"
   | _, _ => "?"
 
 def showTail (x : XProc) : String :=
